@@ -210,6 +210,23 @@ def run(tier, seed):
     rep.case({'labels': vals, 'goal': goal.name, 'flip': flip}, flip and goal.name == 'MINIMIZE')
     if back != vals:
       viol('objective labels do not round-trip through convert / to_metrics', {'values': vals, 'goal': goal.name, 'flip': flip, 'back': back})
+    # the same label array in the shapes callers use - (n, 1), (n,), a column of a label matrix - decoded twice: the second
+    # decoding gives the same metrics and the array is left as it was (safety metrics with a threshold included)
+    for shape_ in ('n1', 'n', 'column'):
+      arr_ = {'n1': lambda: labels.copy(), 'n': lambda: labels.flatten().copy(),
+              'column': lambda: np.stack([labels.flatten(), labels.flatten() * 2.0], axis=1)[:, 0]}[shape_]()
+      before_ = np.array(arr_, copy=True)
+      try:
+        first_ = [m.value for m in oc.to_metrics(arr_)]
+        second_ = [m.value for m in oc.to_metrics(arr_)]
+      except Exception as e:  # pylint: disable=broad-except
+        rep.count('to_metrics_refused_%s_%s' % (shape_, type(e).__name__))
+        continue
+      if first_ != vals or second_ != vals or not np.array_equal(before_, np.asarray(arr_)):
+        viol('decoding a label array (shape %s) does not return the metric values both times or modifies the array' % shape_,
+             {'values': vals, 'goal': goal.name, 'flip': flip, 'first': first_, 'second': second_, 'array_before': before_.tolist(),
+              'array_after': np.asarray(arr_).tolist()})
+        break
     want = [-v if (flip and goal.name == 'MINIMIZE') else v for v in vals]
     if labels.flatten().tolist() != want:
       viol('label sign convention differs from the documented one', {'values': vals, 'goal': goal.name, 'flip': flip, 'labels': labels.flatten().tolist()})
